@@ -63,6 +63,13 @@ theorem mem_flatten_of_length {M : Matrix} (h : ∀ r ∈ M, r.length = 1) (q : 
     | [p], _ => simp at hq; subst hq; exact hr
   · intro hr; exact ⟨[q], hr, by simp⟩
 
+theorem Val.hasTyL_singleton {sg : Sig} {vs : List Val} {t : Ty} (h : Val.hasTyL sg vs [t] = true) :
+    ∃ x, vs = [x] ∧ Val.hasTy sg x t = true := by
+  match vs, h with
+  | [x], h => exact ⟨x, rfl, by simpa [Val.hasTyL] using h⟩
+  | [], h => simp [Val.hasTyL] at h
+  | _ :: _ :: _, h => simp [Val.hasTyL] at h
+
 /-- the loop accepts iff every clause is useful w.r.t. the earlier ones and nothing is missing -/
 theorem checkLoop_ok (cs : List Pat) : ∀ (M : Matrix) (i : Nat),
     checkLoop M i cs = .ok ↔
